@@ -137,6 +137,11 @@ impl ListenerState {
         let mut incoming = listener.incoming();
 
         while let Some(stream) = incoming.next().await {
+            #[cfg(feature = "verif-hooks")]
+            if aquatic_common::verif_hooks::fault_point("socket") {
+                return;
+            }
+
             match stream {
                 Ok(stream) => {
                     let opt_valid_until = ValidUntil::new(
